@@ -25,6 +25,7 @@ import (
 	"github.com/lestrrat-go/jwx/v2/jwk"
 	ssi "github.com/nuts-foundation/go-did"
 	"github.com/nuts-foundation/go-did/did"
+	"github.com/nuts-foundation/nuts-node/crypto/jwx"
 	"github.com/nuts-foundation/nuts-node/network/transport"
 	"github.com/nuts-foundation/nuts-node/vdr/resolver"
 )
@@ -117,6 +118,10 @@ func (v verificationMethodValidator) verifyThumbprint(method *did.VerificationMe
 	if keyAsJWK == nil {
 		// JWK() returns nil without error if the verification method has no publicKeyJwk
 		return errors.New("verificationMethod does not contain a JWK")
+	}
+	// calculating the thumbprint of an EC key panics if a coordinate doesn't fit the curve
+	if err = jwx.ValidateECCoordinates(keyAsJWK); err != nil {
+		return err
 	}
 	// The key ID must be derived from the key material. AssignKeyID does nothing if the JWK already contains a kid,
 	// so remove any kid that was embedded in the publicKeyJwk first.
